@@ -84,6 +84,7 @@ struct Frame {
     std::vector<uint64_t> allocas;
     std::vector<Val> varargs;
     const llvm::CallBase *callsite = nullptr;  // call instruction in the caller
+    uint64_t stackMark = 0;                    // spawned threads: stack pointer to restore when this frame is popped
 };
 
 struct ExnRec { uint64_t obj = 0, ti = 0; };
@@ -94,6 +95,7 @@ struct Thread {
     uint64_t lpExn = 0; int64_t lpSel = 0; uint64_t lpTi = 0; // pending landingpad values
     bool done = false;
     bool started = false;
+    uint64_t nextStack = 0;           // spawned threads have their own stack region (addresses depend on the thread's own history only)
 };
 
 struct Input { std::string name; unsigned w; Ast e; };
@@ -102,7 +104,8 @@ struct Observation { std::string tag; Val v; };
 struct State {
     std::vector<Thread> threads;
     int cur = 0;
-    std::map<uint64_t, ObjP> mem;
+    std::map<uint64_t, ObjP> mem;                // all objects; in thread mode: only objects created/written since the first vf_spawn (null = erased base object)
+    std::shared_ptr<const std::map<uint64_t, ObjP>> baseMem; // thread mode: immutable snapshot of memory at the first vf_spawn, shared by all states
     std::vector<Ast> pc;                         // path condition (Bool asts)
     std::vector<Input> inputs;
     std::vector<Observation> obs;
@@ -121,6 +124,8 @@ struct State {
     int skipThread = -1; const llvm::Instruction *skipAt = nullptr; // schedule point already taken
     unsigned preempts = 0;
     bool joining = false;
+    std::set<uint64_t> dirty;                       // objects written since the first vf_spawn (thread mode)
+    uint64_t baseHash[2] = {0, 0};                  // hash of the whole memory at the first vf_spawn
     unsigned concIdx = 0;                           // next concrete input (vectors mode)
     Thread &T() { return threads[cur]; }
 };
